@@ -150,19 +150,20 @@ def attach (mark : Str) (items : List Str) : List Ent :=
 /-- what `read_metadata` leaves: (metadata, final `doc_list`) of a non-file entity.
     `rep` selects the variant of the code: `false` = as is (module-procedure references get
     their docstring after `read_metadata` ran, so it is not split; finding
-    C03-modproc-metadata-not-split), `true` = with fixes/C03-modproc-metadata.diff applied. -/
-def entDoc (fields : List Str) (rep : Bool) (e : Ent) : MetaDict × List Str :=
+    C03-modproc-metadata-not-split), `true` = with fixes/C03-modproc-metadata.diff applied; `tb` selects the variant of the
+    one-line rule (see `isOneLine`). -/
+def entDoc (tb : Bool) (fields : List Str) (rep : Bool) (e : Ent) : MetaDict × List Str :=
   if e.split || rep then
-    let r := readMetadata fields e.init
+    let r := readMetadata tb fields e.init
     (r.1, r.2 ++ e.extra)
   else ([], e.init ++ e.extra)
 
 /-- (name, metadata, final doc_list) of every entity; the first one is the source file,
     whose `doc_list` is filled by its loop and split at the end -/
-def entDocs (fields : List Str) (rep : Bool) : List Ent → List (Str × MetaDict × List Str)
+def entDocs (tb : Bool) (fields : List Str) (rep : Bool) : List Ent → List (Str × MetaDict × List Str)
   | [] => []
   | f :: rest =>
-    (f.name, readMetadata fields (f.init ++ f.extra)) ::
-      rest.map (fun e => (e.name, entDoc fields rep e))
+    (f.name, readMetadata tb fields (f.init ++ f.extra)) ::
+      rest.map (fun e => (e.name, entDoc tb fields rep e))
 
 end Ford
